@@ -197,8 +197,13 @@ def c18_renderings(E, blt, opts, r):
                 got.append((st, name, val))
         if not ambiguous and sorted(got) != sorted(want):
             miss = [x for x in want if x not in got]; extra = [x for x in got if x not in want]
+            # the only difference: defeated candidates whose tally equals zero under the arithmetic's own (fuzzy) comparison are
+            # printed in the zero-vote group as V0 although their recorded tally prints differently (finding K16)
+            zg = bool(miss) and len(miss) == len(extra) and all(
+                st == 'defeated' and (st, nm, str(V0)) in extra and any(name_of(c) == nm and cs[c]['vote'] == V0 and str(cs[c]['vote']) != str(V0) for c in cids)
+                for st, nm, val in miss)
             bad('c18-report-status', "%s: the report block lists %r, the record has %r (missing %r, extra %r)" %
-                (where, got[:6], want[:6], miss[:4], extra[:4]))
+                (where, got[:6], want[:6], miss[:4], extra[:4]), zero_group_only=zg)
         # totals
         T = ent['totals']
         qn = E.rule.quota_name
